@@ -16,8 +16,9 @@
 (* every accepted value (and every counterexample tuple) on the real code. *)
 (*                                                                         *)
 (* The second part is a small state machine for the one contract that is   *)
-(* about state rather than a number: dynamic_macro.rs `macro_items.len()   *)
-(* - 1` needs a recorded item, which the parser cannot guarantee.          *)
+(* about state rather than a number: dynamic_macro.rs removed item         *)
+(* `macro_items.len() - 1`, which needs a recorded item the parser cannot   *)
+(* guarantee; since fix 72e2986 it is `pop()` and no precondition is left. *)
 (***************************************************************************)
 EXTENDS Naturals, Integers, Sequences, FiniteSets, TLC, Json
 
@@ -37,7 +38,7 @@ Guar(g, v) ==
     [] g = "mapped" -> v <= 766                    \* src: mod.rs:1174 `for osc in 0..KEYS_IN_ROW`, defsrc keys, MAPPED_KEYS filter of the OS layers
     [] g = "vkey" -> v <= 766                      \* src: mod.rs:3099,3143 at most KEYS_IN_ROW virtual keys => index <= 766
     [] g = "chv2coord" -> v >= 851 /\ v <= 900     \* src: keyberon/src/chord.rs:162,235-243 virtual coordinates of active chords
-    [] g = "len0" -> TRUE                          \* a list of any length, including empty (tap-dance action list)
+    [] g = "len1" -> v >= 1                        \* src: mod.rs parse_tap_dance "the list must have at least one action" (fix a045d7c)
     [] g = "depth8" -> v <= 8                      \* src: parser/src/cfg/switch.rs:66 rejects depth > MAX_BOOL_EXPR_DEPTH
     [] OTHER -> FALSE
 
@@ -82,14 +83,16 @@ Entries == <<
 CoordEntries == <<
   [id |-> "coord.real-key",   g |-> "mapped",    site |-> "src_keys[y]"],
   [id |-> "coord.virtual-key", g |-> "vkey",     site |-> "src_keys[y]"],
-  [id |-> "coord.chords-v2",  g |-> "chv2coord", site |-> "src_keys[y]"],
   [id |-> "coord.real-key",   g |-> "mapped",    site |-> "layers[l][x][y]"],
-  [id |-> "coord.virtual-key", g |-> "vkey",     site |-> "layers[l][x][y]"],
-  [id |-> "coord.chords-v2",  g |-> "chv2coord", site |-> "layers[l][x][y]"]
+  [id |-> "coord.virtual-key", g |-> "vkey",     site |-> "layers[l][x][y]"]
+  \* virtual coordinates 851..900 of active chords (keyberon/src/chord.rs next_coord) do not feed these two lookups:
+  \* parse_single_chord refuses an action that is or contains the transparent action (fix b1a5742) or use-defsrc
+  \* (fix e6580d6), the only actions that index by the coordinate; tools/props/c02.py keeps both as targeted texts
+  \* that must be rejected
 >>
 LenEntries == <<
-  [id |-> "tap-dance.actions.len",       g |-> "len0",   site |-> "tap-dance.actions[idx]"],
-  [id |-> "tap-dance-eager.actions.len", g |-> "len0",   site |-> "tap-dance-eager.actions[0]"],
+  [id |-> "tap-dance.actions.len",       g |-> "len1",   site |-> "tap-dance.actions[idx]"],
+  [id |-> "tap-dance-eager.actions.len", g |-> "len1",   site |-> "tap-dance-eager.actions[0]"],
   [id |-> "switch.bool-depth",           g |-> "depth8", site |-> "switch.eval-stack"]
 >>
 
@@ -108,10 +111,11 @@ Pre(site, p) ==
     \* accel_time = 0 makes the increment infinite (saturating cast to 65535)
     [] site = "accel.min+increment" -> p[1] >= 1 /\ p[2] <= p[3] /\ p[2] + (p[3] - p[2]) <= U16
     [] site = "seq.ticks_until_timeout-=1" -> p[1] >= 1          \* src: src/kanata/mod.rs:987
-    [] site = "seq.noerase_count+=" -> p[1] + p[2] <= U16        \* src: src/kanata/sequences.rs:370 (two noerase actions in one sequence)
+    [] site = "seq.noerase_count+=" -> TRUE                       \* src: src/kanata/sequences.rs add_noerase: saturating_add (fix b0ed4c2)
     \* src: keyberon/src/layout.rs:1131,1161,1191 `w.delay + w.ticks`: delay = queue age (saturating, so up to the time the
     \* event was held back: a pause of rapid-event-delay ticks or another waiting action), ticks <= the action's own timeout
-    [] site = "waiting.delay+ticks" -> p[1] + p[2] <= U16
+    \* saturating_add at all four sites since fix 871d8af: no precondition left
+    [] site = "waiting.delay+ticks" -> TRUE
     [] site = "seq.duration-1" -> TRUE                           \* src: keyberon/src/layout.rs:1402-1404 guarded by `duration > 0`
     [] site = "history[n-1]" -> p[1] >= 1 /\ p[1] - 1 < 8        \* src: keyberon/src/action/switch.rs history lookups, HISTORICAL_EVENT_LEN = 8
     [] site = "chv2.assert-min-idle" -> p[1] >= 5                \* src: keyberon/src/chord.rs:152
@@ -180,17 +184,16 @@ ActRecord(id) ==
   /\ hist' = Append(hist, IF id = 1 THEN "record1" ELSE "record2")
   /\ IF rec = -1 THEN rec' = id /\ items' = 0 /\ pend' = FALSE /\ UNCHANGED bad
      ELSE LET n == IF pend THEN Min2(items + 1) ELSE items IN
-          IF n = 0 THEN bad' = "dynamic_macro.rs:183 macro_items.len() - 1" /\ UNCHANGED <<rec, items, pend>>
-          ELSE /\ rec' = IF rec = id THEN -1 ELSE id
-               /\ items' = 0 /\ pend' = FALSE /\ UNCHANGED bad
+          \* `macro_items.pop()` (fix 72e2986): nothing recorded yet is fine; before the fix n = 0 was `len() - 1` on an empty Vec
+          /\ rec' = IF rec = id THEN -1 ELSE id
+          /\ items' = 0 /\ pend' = FALSE /\ UNCHANGED bad
 \* src: stop_macro 242-278
 ActStop ==
   /\ bad = ""
   /\ hist' = Append(hist, "stop")
   /\ IF rec = -1 THEN UNCHANGED <<rec, items, pend, bad>>
      ELSE LET n == IF pend THEN Min2(items + 1) ELSE items IN
-          IF n = 0 THEN bad' = "dynamic_macro.rs:262 macro_items.len() - 1" /\ UNCHANGED <<rec, items, pend>>
-          ELSE rec' = -1 /\ items' = 0 /\ pend' = FALSE /\ UNCHANGED bad
+          rec' = -1 /\ items' = 0 /\ pend' = FALSE /\ UNCHANGED bad     \* `pop()` (fix 72e2986)
 \* the parser puts no constraint on where record / stop actions are placed: several in one multi, on virtual keys,
 \* in hold / timeout / release positions - so an action may run without a recorded event since recording began
 DNext == Phys("press") \/ Phys("release") \/ ActRecord(1) \/ ActRecord(2) \/ ActStop
